@@ -137,6 +137,7 @@ def resolveWeb (dec : List Nat) (cts : List Bytes) (pol : Policy) (strict : Bool
 /-- what `didsubject.Resolver` finds in the node's SQL store for a DID -/
 inductive LocalState where
   | absent | active | deactivated | dbError
+  | noActiveController     -- did:nuts: the document names controllers, none of which resolves to an active document
   deriving Repr, DecidableEq, Inhabited
 
 structure ResolveResult where
@@ -156,6 +157,13 @@ def sqlState (hist : List Bool) : LocalState :=
 def nutsStateOf (hist : List Bool) : LocalState :=
   if hist = [] then .absent else if hist.all id then .active else .deactivated
 
+/-- did:nuts with controllers (vdr/didnuts/resolver.go): `orphanedLast` = the latest version has no key of its own and
+    no active controller -/
+def nutsStateOf' (hist : List Bool) (orphanedLast : Bool) : LocalState :=
+  match nutsStateOf hist with
+  | .active => if orphanedLast then .noActiveController else .active
+  | s => s
+
 /-- `didsubject.Resolver.Resolve` -/
 def resolveLocal (st : LocalState) (allowDeactivated : Bool) (d : DID) : Res ResolveResult :=
   match st with
@@ -163,6 +171,7 @@ def resolveLocal (st : LocalState) (allowDeactivated : Bool) (d : DID) : Res Res
   | .dbError => .err "db"
   | .active => .ok { docID := d.str }
   | .deactivated => if allowDeactivated then .ok { docID := d.str, deactivated := true } else .err "deactivated"
+  | .noActiveController => if allowDeactivated then .ok { docID := d.str } else .err "deactivated"   -- ErrNoActiveController
 
 def sJwk : Bytes := [106, 119, 107]
 def sKey : Bytes := [107, 101, 121]
@@ -198,7 +207,7 @@ def resolve (dec : List Nat) (cts : List Bytes) (pol : Policy) (localFirst : Boo
   else if d.method = sNuts then
     if !n.didMethods.contains sNuts then ([], .err "method-not-supported") else
     ([], resolveLocal (n.nutsState d) allowDeactivated d)
-  else if d.method = sX509 then ([], .err "unmodelled:x509")
+  else if d.method = sX509 then ([], .err "x509")   -- only the path without a certificate chain in the metadata: refused, no I/O
   else ([], .err "method-not-supported")
 
 end Nuts.C18
